@@ -23,8 +23,9 @@ What is modelled, following the code as it is written:
 * `ExplicitFuncComp._jax_linearize`: `_get_tangents` (rows of `np.eye` split at the argument
   boundaries — `eyeSeed`), `jac_forward` / `jac_reverse` (vmap: batch axis last resp. first —
   `jacFwdTensor`, `jacRevTensor`), the reshapes to 2-D and the `start:end` / `cstart:cend` stacking
-  (`efcFwd`, `efcRev`), `Jacobian.set_dense_jac` incl. declared `rows`/`cols` (`subjacEntry`,
-  `subjacSparse`).
+  (`efcFwd`, `efcRev`), the iteration over the first axis when the function returns one bare value
+  (`fwdBlockSingle`, `efcFwdSingle`), `Jacobian.set_dense_jac` incl. declared `rows`/`cols`
+  (`subjacEntry`, `subjacSparse`).
 * `JaxExplicitComponent._compute_partials` without coloring: `_jax_derivs2partials` (reshape of the
   `out_shape ++ in_shape` block of `jax.jacfwd/jacrev` to `(size_of, size_wrt)` — `derivBlock`).
 * colored evaluation (`ExplicitFuncComp._jax_linearize`, `ImplicitFuncComp._jax_linearize`,
@@ -36,7 +37,7 @@ What is modelled, following the code as it is written:
   (`ifcFwd`), `_reorder_col_chunks` (`chunkOrder`, `ifcRev`).
 
 Not modelled (checked differentially only): `jit`, the sparsity detection that feeds the coloring
-(the coloring is a parameter, validated per case by `coloringOk`), the coloring algorithm (C03),
+(the coloring is a parameter, validated per case by `coloringOkFwd` / `coloringOkRev`), the coloring algorithm (C03),
 `func_api` metadata defaults, 2-D linear algebra inside function bodies.
 Core Lean only.
 -/
@@ -440,7 +441,8 @@ def ifcRevColored (byName : Bool) (f : Func) (ad : AD K) (C : Coloring) (row col
     revBlock ad (fun i => colorSeed f.retSizes (C.groups.getD i [])) C.groups.length
       (f.argShape p) p i qj.2) row col
 
-/-- Offset of OpenMDAO column variable number `q` (outputs first, then inputs). -/
+/-- Sizes of the column blocks of the OpenMDAO jacobian of an implicit component: outputs in vector
+order, then inputs in vector order. -/
 def Func.omColSizes (f : Func) : List Nat :=
   ((List.range f.rets.length).map f.stateOfResid ++ f.inputVars).map f.colSize
 
